@@ -149,7 +149,7 @@ class Ctx:
         except subprocess.TimeoutExpired:
             raise ToolFailure("harness timed out: vh %s" % " ".join(args))
 
-    def grammar_corpus(self, stride=1, per=3, maxlen=3):
+    def grammar_corpus(self, stride=1, per=3, maxlen=3, skstride=1):
         """the grammar corpus (spec/Frontend/ExprGen.tla expressions + ReadOnlyGate.tla clause skeletons) as one ndjson file;
         the harness reads it through VH_GRAMMAR (frontarea/grammar.go).  stride thins the depth-2 expressions for Models(),
         per = positions per depth-2 expression in the faithfulness run."""
@@ -164,7 +164,7 @@ class Ctx:
                 raise ToolFailure("grammar generators printed %d expressions and %d skeletons:\n%s" % (len(recs), len(sk), (r.out + r2.out)[-1500:]))
             write_ndjson(path, recs + sk)
             self.cov["grammar_corpus"] = {"expressions": len(recs), "clause_skeletons": len(sk)}
-        self.grammar_env = {"VH_GRAMMAR": path, "VH_GRAMMAR_STRIDE": str(stride), "VH_GRAMMAR_PER": str(per)}
+        self.grammar_env = {"VH_GRAMMAR": path, "VH_GRAMMAR_STRIDE": str(stride), "VH_GRAMMAR_PER": str(per), "VH_GRAMMAR_SKSTRIDE": str(skstride)}
         return path
 
     # ---------------- TLC
